@@ -25,8 +25,8 @@ import (
 	"strings"
 )
 
-// repoDir returns the directory of the pion/rtp tree this binary was built against.
-func repoDir() string {
+// pktzRepoDir returns the directory of the pion/rtp tree this binary was built against.
+func pktzRepoDir() string {
 	if bi, ok := debug.ReadBuildInfo(); ok {
 		for _, d := range bi.Deps {
 			if d.Path == "github.com/pion/rtp" && d.Replace != nil && d.Replace.Path != "" {
@@ -56,8 +56,8 @@ const (
 	seqFieldB = "rollOverCount"
 )
 
-// isMutexCall reports whether e is `<recv>.mutex.<method>()`.
-func isMutexCall(e ast.Expr, recv, method string) bool {
+// seqIsMutexCall reports whether e is `<recv>.mutex.<method>()`.
+func seqIsMutexCall(e ast.Expr, recv, method string) bool {
 	call, ok := e.(*ast.CallExpr)
 	if !ok || len(call.Args) != 0 {
 		return false
@@ -74,8 +74,8 @@ func isMutexCall(e ast.Expr, recv, method string) bool {
 	return ok && id.Name == recv
 }
 
-// recvOf returns (receiver name, receiver is *sequencer).
-func recvOf(fd *ast.FuncDecl) (string, bool) {
+// seqRecvOf returns (receiver name, receiver is *sequencer).
+func seqRecvOf(fd *ast.FuncDecl) (string, bool) {
 	if fd.Recv == nil || len(fd.Recv.List) != 1 {
 		return "", false
 	}
@@ -91,7 +91,7 @@ func recvOf(fd *ast.FuncDecl) (string, bool) {
 	return f.Names[0].Name, true
 }
 
-func evalConstInt(e ast.Expr) (int, bool) {
+func pktzEvalConstInt(e ast.Expr) (int, bool) {
 	switch v := e.(type) {
 	case *ast.BasicLit:
 		if v.Kind != token.INT {
@@ -100,10 +100,10 @@ func evalConstInt(e ast.Expr) (int, bool) {
 		n, err := strconv.ParseInt(v.Value, 0, 64)
 		return int(n), err == nil
 	case *ast.ParenExpr:
-		return evalConstInt(v.X)
+		return pktzEvalConstInt(v.X)
 	case *ast.BinaryExpr:
-		a, ok1 := evalConstInt(v.X)
-		b, ok2 := evalConstInt(v.Y)
+		a, ok1 := pktzEvalConstInt(v.X)
+		b, ok2 := pktzEvalConstInt(v.Y)
 		if !ok1 || !ok2 {
 			return 0, false
 		}
@@ -150,7 +150,7 @@ func extractSeqFacts(dir string) seqFacts {
 						vs := sp.(*ast.ValueSpec)
 						for i, n := range vs.Names {
 							if n.Name == "maxInitialRandomSequenceNumber" && i < len(vs.Values) {
-								if v, ok := evalConstInt(vs.Values[i]); ok {
+								if v, ok := pktzEvalConstInt(vs.Values[i]); ok {
 									f.maxInitialRandom = v
 								}
 							}
@@ -167,7 +167,7 @@ func extractSeqFacts(dir string) seqFacts {
 					})
 				}
 			case *ast.FuncDecl:
-				recv, isSeq := recvOf(d)
+				recv, isSeq := seqRecvOf(d)
 				isMethod := isSeq && (d.Name.Name == "NextSequenceNumber" || d.Name.Name == "RollOverCount")
 				isCtor := d.Recv == nil && (d.Name.Name == "NewRandomSequencer" || d.Name.Name == "NewFixedSequencer")
 				if d.Body == nil {
@@ -176,11 +176,11 @@ func extractSeqFacts(dir string) seqFacts {
 				if isMethod {
 					locks := len(d.Body.List) >= 1 && func() bool {
 						es, ok := d.Body.List[0].(*ast.ExprStmt)
-						return ok && isMutexCall(es.X, recv, "Lock")
+						return ok && seqIsMutexCall(es.X, recv, "Lock")
 					}()
 					defers := locks && len(d.Body.List) >= 2 && func() bool {
 						ds, ok := d.Body.List[1].(*ast.DeferStmt)
-						return ok && isMutexCall(ds.Call, recv, "Unlock")
+						return ok && seqIsMutexCall(ds.Call, recv, "Unlock")
 					}()
 					if d.Name.Name == "NextSequenceNumber" {
 						f.nextLocksFirst, f.nextDefersUnlock, seenNext = locks, defers, true
